@@ -107,7 +107,22 @@ func genStorageCase(r *rand.Rand, T int) *stCase {
 		}
 	}
 	full := c.volumes[n-1]
-	c.style = []string{"fill", "drawdown", "mixed", "quiet", "weir", "surcharged", "idle"}[r.Intn(7)]
+	c.style = []string{"fill", "drawdown", "mixed", "quiet", "weir", "surcharged", "idle", "drain"}[r.Intn(8)]
+	if stiffLong {
+		c.style = "stiff-long"
+	}
+	if c.style == "drain" {
+		// a storage without a water surface (no evaporation) whose outlet passes whatever is there within seconds once it
+		// is nearly empty: coinciding release curves rising from 0 at empty to V1/tau at a first point of a few hundred m3
+		// (tau 6..10 s) and flat above; it is drawn down to next to nothing inside a timestep and then follows a small
+		// inflow -- the solver ends up on its shortest sub-timesteps
+		c.n, n = 3, 3
+		v1 := 100 + 400*r.Float64()
+		q1 := v1 / (6 + 4*r.Float64())
+		c.levels, c.volumes, c.areas = []float64{100, 101, 110}, []float64{0, v1, 1e6}, []float64{0, 0, 0}
+		c.minRel, c.maxRel = []float64{0, q1, q1}, []float64{0, q1, q1}
+		full = c.volumes[n-1]
+	}
 	if c.style == "idle" {
 		// nothing changes: no surface (no rain / evaporation exchange) and a demand that equals the inflow and lies
 		// between the release curves, or an empty storage with nothing coming in -- the volume at the end IS the
@@ -143,6 +158,9 @@ func genStorageCase(r *rand.Rand, T int) *stCase {
 	}
 	if c.style == "stiff-long" {
 		c.v0 = 0
+	}
+	if c.style == "drain" {
+		c.v0 = c.maxRel[1] * c.dt * (0.1 + 0.8*r.Float64()) // gone within the first timestep
 	}
 	idleQ := 0.0
 	if c.style == "idle" {
@@ -184,6 +202,12 @@ func genStorageCase(r *rand.Rand, T int) *stCase {
 			c.demand[t] = r.Float64() * 5
 			c.rain[t] = r.ExpFloat64() * 5 * perDay
 			c.pet[t] = r.Float64() * 4 * perDay
+		case "drain":
+			c.inflow[t] = 0.01 + 0.5*r.Float64()
+			if (t/5)%3 == 2 {
+				c.inflow[t] = c.maxRel[1] * 3 * r.Float64() // a refill now and then
+			}
+			c.demand[t] = r.Float64() * 2
 		case "idle":
 			c.inflow[t], c.demand[t] = idleQ, idleQ
 		case "stiff-long":
